@@ -18,7 +18,9 @@ import (
 
 var nFailed int32
 
-const maxFailures = 12
+// failure budget of one run (GOVC_MAXFAIL overrides): after that many failed obligations the rest
+// is not attempted
+var maxFailures = envInt32("GOVC_MAXFAIL", 12)
 
 type SolveResult struct {
 	Status  string // unsat | sat | unknown | timeout | error
@@ -565,3 +567,11 @@ var splitForall = os.Getenv("GOVC_SPLITFORALL") != ""
 
 // GOVC_NOSLICE=1 turns the per-obligation block slicing off (debugging aid)
 var noSlice = os.Getenv("GOVC_NOSLICE") != ""
+
+func envInt32(name string, def int32) int32 {
+	var v int32
+	if _, err := fmt.Sscanf(os.Getenv(name), "%d", &v); err == nil && v > 0 {
+		return v
+	}
+	return def
+}
